@@ -4,7 +4,10 @@
 package execsim
 
 import (
+	"bytes"
 	"context"
+	"encoding/json"
+	"net/http/httptest"
 	"fmt"
 	"sort"
 	"strings"
@@ -14,8 +17,12 @@ import (
 
 	"github.com/99designs/gqlgen/graphql"
 	"github.com/99designs/gqlgen/graphql/executor"
+	"github.com/99designs/gqlgen/graphql/handler"
+	"github.com/99designs/gqlgen/graphql/handler/transport"
 	"github.com/vektah/gqlparser/v2/ast"
 	"github.com/vektah/gqlparser/v2/gqlerror"
+	gqlparser "github.com/vektah/gqlparser/v2"
+	"github.com/vektah/gqlparser/v2/validator"
 
 	"verifsim/core"
 	"verifsim/ops"
@@ -51,6 +58,34 @@ type Cfg struct {
 	CancelAt int  // quiescent point at which the request context is cancelled; <0 never
 	Single   bool // take only the first payload (single-response transport), then cancel
 	MaxSteps int
+	ViaHTTP  bool    // go through handler.Server + transport.POST instead of the response function
+	Server   *Server // reuse a server (same executor, same uni); nil = fresh
+}
+
+// Server is one long-lived generated server: the universal resolver, an executor and an HTTP
+// handler with the POST transport.
+type Server struct {
+	U         *uni.Uni
+	Ex        *executor.Executor
+	H         *handler.Server
+	recovered atomic.Int32
+}
+
+// NewServer builds a server of variant v; plan can be swapped between requests via s.U.Plan.
+func NewServer(rc *core.RunCtx, v *uni.Variant, plan *refexec.Plan) *Server {
+	s := &Server{U: uni.New(rc.W, v, plan)}
+	v.SetBlobHook(blobHook)
+	rec := func(ctx context.Context, err any) error {
+		s.recovered.Add(1)
+		rc.W.Logf("recover", "", "%v", err)
+		return fmt.Errorf("recovered:%v", err)
+	}
+	s.Ex = executor.New(s.U.ES)
+	s.Ex.SetRecoverFunc(rec)
+	s.H = handler.New(s.U.ES)
+	s.H.AddTransport(transport.POST{})
+	s.H.SetRecoverFunc(rec)
+	return s
 }
 
 // Payload is a parsed response payload.
@@ -75,6 +110,8 @@ type Out struct {
 	StuckSite  string
 	StuckDump  string
 	Recovered  int
+	HTTPStatus int
+	HTTPBody   string
 	Quiescent  int // quiescent points at which something was parked
 	MaxEnabled int
 	Sig        []string // released keys in order
@@ -109,6 +146,48 @@ func toPayload(r *graphql.Response) *Payload {
 			p.JSONErr = err.Error()
 		}
 		p.Data = j
+	}
+	return p
+}
+
+// httpPayload parses a JSON GraphQL response body into a Payload.
+func httpPayload(body string) *Payload {
+	p := &Payload{Raw: body}
+	j, err := parsers.ParseJSON([]byte(body))
+	if err != nil {
+		p.JSONErr = "body: " + err.Error()
+		return p
+	}
+	if j.K != parsers.Obj {
+		p.JSONErr = "body is not a JSON object"
+		return p
+	}
+	if d := j.Get("data"); d != nil {
+		p.HasData = true
+		p.Data = d
+		p.Raw = d.Canon()
+	}
+	if es := j.Get("errors"); es != nil && es.K == parsers.Arr {
+		for _, e := range es.A {
+			var path strings.Builder
+			if pj := e.Get("path"); pj != nil && pj.K == parsers.Arr {
+				for i, el := range pj.A {
+					if el.K == parsers.Num {
+						path.WriteString("[" + el.N + "]")
+					} else {
+						if i > 0 {
+							path.WriteString(".")
+						}
+						path.WriteString(el.S)
+					}
+				}
+			}
+			msg := ""
+			if m := e.Get("message"); m != nil {
+				msg = m.S
+			}
+			p.Errors = append(p.Errors, refexec.Err{Path: path.String(), Class: refexec.ClassOf(msg)})
+		}
 	}
 	return p
 }
@@ -161,50 +240,72 @@ func pick(t *core.Tape, s Sched, items []*core.Item) []*core.Item {
 func Execute(rc *core.RunCtx, cfg Cfg) *Out {
 	w := rc.W
 	out := &Out{}
-	u := uni.New(w, cfg.Variant, cfg.Plan)
+	srv := cfg.Server
+	if srv == nil {
+		srv = NewServer(rc, cfg.Variant, cfg.Plan)
+	}
+	u := srv.U
+	u.Plan = cfg.Plan
 	u.Ctx = cfg.CtxMode
 	u.ParkDir = cfg.ParkDir
 	out.U = u
-	cfg.Variant.SetBlobHook(blobHook)
-	ex := executor.New(u.ES)
-	var recovered atomic.Int32
-	ex.SetRecoverFunc(func(ctx context.Context, err any) error {
-		recovered.Add(1)
-		w.Logf("recover", "", "%v", err)
-		return fmt.Errorf("recovered:%v", err)
-	})
+	rec0 := srv.recovered.Load()
 	base, cancel := context.WithCancel(context.Background())
 	defer cancel()
-	ctx := graphql.StartOperationTrace(base)
-	params := &graphql.RawParams{Query: cfg.Op.Query, Variables: cfg.Op.Vars, OperationName: cfg.Op.OpName}
-	opc, errs := ex.CreateOperationContext(ctx, params)
-	if len(errs) > 0 {
-		out.GateErrs = errs
-		out.Done = true
-		return out
-	}
-	out.Doc, out.Operation, out.Vars = opc.Doc, opc.Operation, opc.Variables
-	isMutation := opc.Operation.Operation == ast.Mutation
-	handler, hctx := ex.DispatchOperation(ctx, opc)
-
 	done := make(chan struct{})
 	var payloads []*Payload
 	var pmu sync.Mutex
-	go func() {
-		defer close(done)
-		for {
-			r := handler(hctx)
-			if r == nil {
-				return
-			}
-			pmu.Lock()
-			payloads = append(payloads, toPayload(r))
-			pmu.Unlock()
-			if cfg.Single {
-				return
+	isMutation := false
+	if doc, lerr := gqlparser.LoadQuery(u.Schema, cfg.Op.Query); len(lerr) == 0 {
+		if op := doc.Operations.ForName(cfg.Op.OpName); op != nil {
+			isMutation = op.Operation == ast.Mutation
+			out.Doc, out.Operation = doc, op
+			if vars, verr := validator.VariableValues(u.Schema, op, cfg.Op.Vars); verr == nil {
+				out.Vars = vars
 			}
 		}
-	}()
+	}
+	if cfg.ViaHTTP {
+		body, _ := json.Marshal(map[string]any{"query": cfg.Op.Query, "variables": cfg.Op.Vars, "operationName": cfg.Op.OpName})
+		req := httptest.NewRequest("POST", "/query", bytes.NewReader(body)).WithContext(base)
+		req.Header.Set("Content-Type", "application/json")
+		rec := httptest.NewRecorder()
+		go func() {
+			defer close(done)
+			srv.H.ServeHTTP(rec, req)
+			pmu.Lock()
+			out.HTTPStatus = rec.Code
+			out.HTTPBody = rec.Body.String()
+			pmu.Unlock()
+		}()
+	} else {
+		ctx := graphql.StartOperationTrace(base)
+		params := &graphql.RawParams{Query: cfg.Op.Query, Variables: cfg.Op.Vars, OperationName: cfg.Op.OpName}
+		opc, errs := srv.Ex.CreateOperationContext(ctx, params)
+		if len(errs) > 0 {
+			out.GateErrs = errs
+			out.Done = true
+			return out
+		}
+		out.Doc, out.Operation, out.Vars = opc.Doc, opc.Operation, opc.Variables
+		isMutation = opc.Operation.Operation == ast.Mutation
+		handler, hctx := srv.Ex.DispatchOperation(ctx, opc)
+		go func() {
+			defer close(done)
+			for {
+				r := handler(hctx)
+				if r == nil {
+					return
+				}
+				pmu.Lock()
+				payloads = append(payloads, toPayload(r))
+				pmu.Unlock()
+				if cfg.Single {
+					return
+				}
+			}
+		}()
+	}
 
 	maxSteps := cfg.MaxSteps
 	if maxSteps == 0 {
@@ -278,7 +379,10 @@ func Execute(rc *core.RunCtx, cfg Cfg) *Out {
 	pmu.Lock()
 	out.Payloads = append([]*Payload(nil), payloads...)
 	pmu.Unlock()
-	out.Recovered = int(recovered.Load())
+	out.Recovered = int(srv.recovered.Load() - rec0)
+	if cfg.ViaHTTP && finished {
+		out.Payloads = []*Payload{httpPayload(out.HTTPBody)}
+	}
 	if !finished && !out.Stuck {
 		out.Stuck = true
 		out.StuckSite = "step-budget"
